@@ -210,3 +210,24 @@ pub fn current_kps<C: Suite>(sim: &Sim<C>) -> BTreeMap<usize, KeyPackage<C>> {
 pub fn node_of<C: Suite>(sim: &Sim<C>, id: &Identifier<C>) -> Option<usize> {
     sim.ids.iter().position(|i| i == id)
 }
+
+/// A byte string that makes the suite's `Field::random` return exactly `s` when it is what the random source hands out
+/// (little-endian wide / exact-width big-endian layouts are tried; `None` if neither reproduces `s`).
+pub fn craft_draw<C: Suite>(s: frost::Scalar<C>) -> Option<Vec<u8>> {
+    use frost_core::{Field, Group};
+    type F<C> = <<C as frost::Ciphersuite>::Group as Group>::Field;
+    let le = {
+        let mut b = F::<C>::little_endian_serialize(&s).as_ref().to_vec();
+        b.resize(if b.len() > 40 { 114 } else { 64 }, 0);
+        b
+    };
+    let be = sc_bytes::<C>(&s);
+    for cand in [le, be] {
+        let mut r = crate::simrng::SimRng::replay(cand.clone(), crate::prng::stream(0, 0, "craft/never"));
+        let got = F::<C>::random(&mut r);
+        if got == s && r.total() == cand.len() {
+            return Some(cand);
+        }
+    }
+    None
+}
